@@ -347,6 +347,9 @@ func (self *Value) SetByPath(sub Value, path ...Path) (exist bool, err error) {
 				return false, err
 			}
 			f := desc.Struct().FieldByKey(p.str())
+			if f == nil {
+				return false, errValue(meta.ErrUnknownField, fmt.Sprintf("field name '%s' is not defined in IDL", p.str()), nil)
+			}
 			p = NewPathFieldId(f.ID())
 		}
 		if err := v.setNotFound(p, &sub.Node); err != nil {
@@ -383,7 +386,13 @@ func (self *Value) UnsetByPath(path ...Path) error {
 		if err != nil {
 			return err
 		}
+		if desc.Type() != thrift.STRUCT {
+			return errValue(meta.ErrUnsupportedType, "field name path expects STRUCT node", nil)
+		}
 		f := desc.Struct().FieldByKey(p.str())
+		if f == nil {
+			return errValue(meta.ErrUnknownField, fmt.Sprintf("field name '%s' is not defined in IDL", p.str()), nil)
+		}
 		p = NewPathFieldId(f.ID())
 	}
 	ret := v.deleteChild(p)
